@@ -281,6 +281,7 @@ def blue_actions(v) -> List[Dict]:
     add("node-session-remote-login", node_name="client_2", remote_ip="192.168.10.1", username="admin", password="admin")
     add("node-send-local-command", node_name=gw, username="admin", password="admin", command=["file_system", "create", "folder", "gwdir"])
     add("node-session-remote-logoff", node_name="client_1", remote_ip="192.168.10.1")
+    add("node-application-install", node_name="client_1", application_name="web-browser")  # after its removal: the same name again
     return A
 
 
@@ -359,7 +360,9 @@ def _green(v):
         "reward_function": {"reward_components": [
             {"type": "webpage-unavailable-penalty", "weight": 0.25, "options": {"node_hostname": "client_1", "sticky": v.get("sticky", True)}},
             {"type": "green-admin-database-unreachable-penalty", "weight": 0.05,
-             "options": {"node_hostname": "client_1", "sticky": v.get("sticky", True)}}]},
+             "options": {"node_hostname": "client_1", "sticky": v.get("sticky", True)}},
+            # a component written without options (its documented defaults apply) but with a weight of its own
+            {"type": "action-penalty", "weight": 0.125}]},
     }
 
 
